@@ -625,6 +625,49 @@ class Enum:
         Enum.link_equivalent(ctx, e, cache)
         return e
 
+    @staticmethod
+    def family(ctx, name, params, n_of, g_of):
+        """A family of enumerations indexed by integer parameters: for all values p of the parameters, the increasing
+        enumeration of {q < n_of(p) | g_of(p, q)}.  The symbols are functions of the parameters (definitional for every
+        value), so two uses with syntactically equal parameter terms denote the same enumeration.  `name` identifies the
+        family (the caller guarantees that equal names mean equal n_of / g_of)."""
+        fams = ctx.__dict__.setdefault("_enum_families", {})
+        m = len(params)
+        ps = [z3.Int(f"p{i}!fam") for i in range(m)]
+        q0 = z3.Int("q!fam")
+        # the family is identified by its name AND by the (canonical text of the) range and predicate
+        name = name + "#" + str(abs(hash(canon_str(z3.simplify(zint(n_of(ps)))) + "|" + canon_str(z3.simplify(zbool(g_of(ps, q0)))))) % 10**9)
+        if name not in fams:
+            F = {k: z3.Function(ctx.fresh_name(f"{k}_{name}"), *([INT] * (m + extra)), INT)
+                 for k, extra in (("cnt", 0), ("idx", 1), ("rk", 1), ("cntbelow", 1))}
+            proto = Enum()
+            proto.n = n_of(ps)
+            proto.g = lambda q, ps=ps: g_of(ps, q)
+            proto.cnt = F["cnt"](*ps)
+            proto.idx = lambda j, ps=ps: F["idx"](*ps, j)
+            proto.rk = lambda j, ps=ps: F["rk"](*ps, j)
+            proto.cb = lambda j, ps=ps: F["cntbelow"](*ps, j)
+            ctx.axioms.extend(z3.ForAll(ps, a) for a in proto.axioms())
+            fams[name] = F
+        F = fams[name]
+        pz = [zint(p) for p in params]
+        e = Enum()
+        e.n = n_of(pz)
+        e.g = lambda q: g_of(pz, q)
+        e.cnt = F["cnt"](*pz)
+        e.idx = lambda j: F["idx"](*pz, zint(j))
+        e.rk = lambda j: F["rk"](*pz, zint(j))
+        e.cb = lambda j: F["cntbelow"](*pz, zint(j))
+        return e
+
+    def assume_total(self, ctx):
+        """Modus ponens on the axiom "(forall i < n. g(i)) => cnt == n and idx(j) == j": to be called right after the
+        premise has been PROVED for an arbitrary i (fresh constant), i.e. for all i."""
+        j = z3.Int("j!ax")
+        nn = zint(self.n)
+        ctx.assumptions.append(self.cnt == z3.If(nn >= 0, nn, 0))
+        ctx.assumptions.append(safe_forall([j], z3.Implies(z3.And(0 <= j, j < nn), self.idx(j) == j), [self.idx(j)], None))
+
     def axioms(self):
         """The defining axioms of the enumeration (cnt, idx, rk, cntbelow)."""
         e, n, g = self, self.n, self.g
